@@ -71,6 +71,7 @@ let def_of (s : string) : defval =
     | 's' -> DStr (dec_opt (String.sub s 2 (String.length s - 2)))
     | 'i' -> DInt (z_of_string (String.sub s 2 (String.length s - 2)))
     | 'b' -> DBool (s.[2] = '1')
+    | 'f' -> DText (dec (String.sub s 2 (String.length s - 2)))
     | _ -> failwith "def"
 
 let rc e = "rc=" ^ string_of_int (int_of_n (err_code e))
